@@ -115,6 +115,7 @@ func vfXRunPlain(m *vfXModel, hist []int) vfXResult {
 		out = m.Exec(hist, true)
 	})
 	out.Status = res.Status
+	out.Violations = append(out.Violations, vfLocksetViolations(res)...)
 	if res.Status != "ok" {
 		switch res.Status {
 		case "panic":
